@@ -514,7 +514,9 @@ def check_rule(res, rt, doc_form, cont, style, key):
     if rt[3] and not (parsed == built and built == parsed):
         res.violation("rule:unequal-eq", "parsed rule != API-built rule", case, observed=repr(parsed), expected=repr(built))
         return
-    if parsed.doc != norm_doc(doc_form) and not (doc_form is None and not parsed.doc):
+    def _stripped(d):   # whether entries are stored stripped or verbatim is not part of the statement
+        return None if not d else {k: [str(i).strip() for i in d.get(k, [])] for k in ("description", "examples")}
+    if _stripped(parsed.doc) != _stripped(norm_doc(doc_form)) and not (doc_form is None and not parsed.doc):
         res.violation("rule:doc", "doc %r is normalised to %r" % (doc_form, parsed.doc), case, observed=parsed.doc,
                       expected=norm_doc(doc_form))
         return
